@@ -38,14 +38,35 @@ func runC14(c *Ctx) {
 	isGet := func(call ssa.CallInstruction) bool {
 		return invokeIs(call, endorsePkg, "VersionControl", "GetChangeOps")
 	}
-	attempts := c.funcsCalling(isGet)
+	// the attempt function: what the retry loop of RetrySubmit calls and whose call closure obtains
+	// the workspace (directly or through helpers)
 	var attemptFns []*ssa.Function
-	for _, f := range attempts {
-		if load.RelPkg(f) == "endorse" {
-			attemptFns = append(attemptFns, f)
+	seenAttempt := map[*ssa.Function]bool{}
+	for _, L := range naturalLoops(retry) {
+		for b := range L.Body {
+			for _, in := range b.Instrs {
+				call, ok := in.(ssa.CallInstruction)
+				if !ok {
+					continue
+				}
+				g := call.Common().StaticCallee()
+				if g == nil || !load.FuncInRepo(g) || seenAttempt[g] {
+					continue
+				}
+				reaches := false
+				for h := range c.reachable([]*ssa.Function{g}, nil) {
+					if h != nil && len(callsIn(h, isGet)) > 0 {
+						reaches = true
+					}
+				}
+				if reaches {
+					seenAttempt[g] = true
+					attemptFns = append(attemptFns, g)
+				}
+			}
 		}
 	}
-	if !c.S.Floor("R0", "attempt functions (callers of VersionControl.GetChangeOps in package endorse)", 1, len(attemptFns)) {
+	if !c.S.Floor("R0", "attempt functions (called in RetrySubmit's loop, reaching VersionControl.GetChangeOps)", 1, len(attemptFns)) {
 		return
 	}
 	isAttempt := func(call ssa.CallInstruction) bool {
